@@ -409,16 +409,18 @@ pub fn apply_s4(faults: &[Fault], px: &mut Vec<bool>, width: &mut usize, fired: 
                 }
             }
             Op::GeoScale { k } => {
-                let k = *k as usize;
-                if rect && k > 1 && w > 0 && n * k * k <= 4_000_000 {
-                    let mut out = Vec::with_capacity(n * k * k);
-                    for r in 0..h * k {
-                        for c in 0..w * k {
-                            out.push(px[(r / k) * w + c / k]);
+                // k < 16: every module drawn as k x k pixels; k >= 16: anisotropic, (k & 15) pixels wide and (k >> 4)
+                // pixels high (a capture with non-square pixels, text output with two cells per module)
+                let (kx, ky) = if *k < 16 { (*k as usize, *k as usize) } else { ((*k & 15) as usize, (*k >> 4) as usize) };
+                if rect && kx >= 1 && ky >= 1 && kx * ky > 1 && w > 0 && n * kx * ky <= 4_000_000 {
+                    let mut out = Vec::with_capacity(n * kx * ky);
+                    for r in 0..h * ky {
+                        for c in 0..w * kx {
+                            out.push(px[(r / ky) * w + c / kx]);
                         }
                     }
                     *px = out;
-                    *width = w * k;
+                    *width = w * kx;
                     fired[fi] = true;
                 }
             }
